@@ -199,6 +199,30 @@ func ruleRejections(r *Run, rule string, k *serKind) {
 			}
 		}
 	}
+	// locals initialised from a decoded variable carry the decoded value (parameter bindings of an inlined validator)
+	for changed := true; changed; {
+		changed = false
+		for _, root := range k.Reader.Roots {
+			ast.Inspect(root, func(n ast.Node) bool {
+				vs, ok := n.(*ast.ValueSpec)
+				if !ok {
+					return true
+				}
+				for i, nm := range vs.Names {
+					if i >= len(vs.Values) {
+						continue
+					}
+					if id, ok := ast.Unparen(vs.Values[i]).(*ast.Ident); ok && decoded[info.Uses[id]] {
+						if obj := info.Defs[nm]; obj != nil && !decoded[obj] {
+							decoded[obj] = true
+							changed = true
+						}
+					}
+				}
+				return true
+			})
+		}
+	}
 	// ordering comparisons the writer enforces before emitting (same operator and constant)
 	enforced := map[string]bool{}
 	for _, root := range k.Writer.Roots {
@@ -384,9 +408,27 @@ func isOrdering(op token.Token) bool {
 }
 
 func returnsError(body *ast.BlockStmt) bool {
-	for _, st := range body.List {
+	for i, st := range body.List {
 		if rs, ok := st.(*ast.ReturnStmt); ok && len(rs.Results) > 0 && exprStr(rs.Results[len(rs.Results)-1]) != "nil" {
 			return true
+		}
+		// the same in an inlined helper (inline2.go): `r…_hN = <error>; break L_hN`
+		if as, ok := st.(*ast.AssignStmt); ok && as.Tok == token.ASSIGN && i+1 < len(body.List) {
+			br, isBr := body.List[i+1].(*ast.BranchStmt)
+			if !isBr || br.Tok != token.BREAK || br.Label == nil || !strings.HasPrefix(br.Label.Name, "L_h") {
+				continue
+			}
+			for j, l := range as.Lhs {
+				id, ok := l.(*ast.Ident)
+				if !ok || !strings.Contains(id.Name, "_h") || !strings.HasPrefix(id.Name, "r") {
+					continue
+				}
+				if j < len(as.Rhs) {
+					if c, isCall := as.Rhs[j].(*ast.CallExpr); isCall && (strings.HasSuffix(exprStr(c.Fun), "Errorf") || strings.HasSuffix(exprStr(c.Fun), "errors.New")) {
+						return true
+					}
+				}
+			}
 		}
 	}
 	return false
